@@ -297,11 +297,20 @@ func (p *parser) newForStmt(initExpr *ast.Node, condExpr *ast.Node, loopExpr *as
 func (p *parser) newForInStmt(inExpr *ast.Node, body *ast.BlockStmt, forTk Item) *ast.Node {
 	var expr *ast.InExpr
 
+	if inExpr == nil {
+		// an operand was malformed; its error has been recorded
+		return nil
+	}
+
 	switch inExpr.NodeType { //nolint:exhaustive
 	case ast.TypeInExpr:
 		expr = inExpr.InExpr()
 	default:
 		p.addParseErrf(p.yyParser.lval.item.PositionRange(), "%s object is not identifier", inExpr.NodeType)
+		return nil
+	}
+
+	if expr.LHS == nil || expr.RHS == nil {
 		return nil
 	}
 
@@ -374,6 +383,11 @@ func (p *parser) newIfElem(ifTk Item, condition *ast.Node, block *ast.BlockStmt)
 }
 
 func (p *parser) newUnaryExpr(op Item, r *ast.Node) *ast.Node {
+	if r == nil {
+		// the operand was malformed; its error has been recorded
+		return nil
+	}
+
 	switch op.Typ {
 	case ADD, SUB:
 		// 负数
@@ -428,6 +442,11 @@ func (p *parser) newConditionalExpr(l, r *ast.Node, op Item) *ast.Node {
 }
 
 func (p *parser) newArithmeticExpr(l, r *ast.Node, op Item) *ast.Node {
+	if l == nil || r == nil {
+		// an operand was malformed; its error has been recorded
+		return nil
+	}
+
 	switch op.Typ {
 	case DIV, MOD: // div 0 or mod 0
 		switch r.NodeType { //nolint:exhaustive
